@@ -995,6 +995,9 @@ type deadlineRec struct {
 	Reads    []string `json:"reads"` // what each successive ReadMsg call gave
 	Corrupt  bool     `json:"delivered_something_never_sent"`
 	Note     string   `json:"note"`
+	// scenario "slow-but-in-time": the longest pause the writer really made (ms) and whether the reader lost anything
+	MaxGapMs int  `json:"longest_pause_ms,omitempty"`
+	Lost     bool `json:"lost_a_frame_although_every_pause_was_shorter_than_the_deadline,omitempty"`
 }
 
 // runD: scenario "deadline-midframe": Timeout 150 ms, the peer stalls 500 ms in the middle of a frame and then
@@ -1041,6 +1044,30 @@ func (p *peer) runD(scenario, v string, r *vc.Rng) deadlineRec {
 			srv.Write(f1[:cutAt])
 			time.Sleep(230 * time.Millisecond) // longer than one read deadline (150 ms), shorter than two
 			srv.Write(f1[cutAt:])
+		case "slow-but-in-time":
+			// silence, then frame 1 in three pieces: every pause (60 ms) is well inside the read deadline (150 ms), all of them
+			// together (240 ms) are not - a deadline has to count from the read it belongs to, not from an earlier one
+			maxGap := time.Duration(0)
+			last := time.Now()
+			pause := func() {
+				time.Sleep(60 * time.Millisecond)
+				if g := time.Since(last); g > maxGap {
+					maxGap = g
+				}
+				last = time.Now()
+			}
+			pause()
+			k := 4 + (len(f1)-4)/3
+			if v == "A" {
+				k = 1 + (len(f1)-1)/3
+			}
+			srv.Write(f1[:k])
+			pause()
+			srv.Write(f1[k : k+(len(f1)-k)/2])
+			pause()
+			srv.Write(f1[k+(len(f1)-k)/2:])
+			pause()
+			rec.MaxGapMs = int(maxGap / time.Millisecond)
 		case "deadline-idle":
 			time.Sleep(500 * time.Millisecond)
 			srv.Write(f1)
@@ -1094,6 +1121,10 @@ func (p *peer) runD(scenario, v string, r *vc.Rng) deadlineRec {
 		if strings.HasPrefix(got, "blocks") || got == "EOF" {
 			break
 		}
+	}
+	if scenario == "slow-but-in-time" {
+		want := []string{"frame1", "frame2", "EOF"}
+		rec.Lost = strings.Join(rec.Reads, ",") != strings.Join(want, ",")
 	}
 	kill(srv)
 	t.Close()
@@ -1848,7 +1879,7 @@ func (g *gen) generate() {
 	}
 
 	// --- read deadline / cancellation (outside the model)
-	for _, sc := range []string{"deadline-midframe", "deadline-midframe-embedded", "deadline-idle", "cancel-midframe"} {
+	for _, sc := range []string{"deadline-midframe", "deadline-midframe-embedded", "deadline-idle", "cancel-midframe", "slow-but-in-time"} {
 		for _, v := range []string{"A", "I"} {
 			g.add(&job{kind: "D", v: v, scenario: sc, class: "deadline", rng: g.r.Fork(uint64(len(g.jobs)))})
 		}
@@ -1902,6 +1933,10 @@ func (p *peer) exec(j *job) {
 		j.hostile = runHostile(j.stream, j.limitMB)
 	case "D":
 		j.dl = p.runD(j.scenario, j.v, j.rng)
+		// a loaded machine can stretch the writer's pauses beyond the deadline: such a run says nothing, it is repeated
+		for try := 0; try < 4 && j.scenario == "slow-but-in-time" && j.dl.Lost && j.dl.MaxGapMs > 110; try++ {
+			j.dl = p.runD(j.scenario, j.v, j.rng)
+		}
 	}
 	j.bfail = p.caseFail
 }
